@@ -303,10 +303,13 @@ impl Property for C15 {
             }
         }
         let pivot = if rooted { std::path::Path::new(&prefix).components().count().max(1) } else { prefix.split('/').filter(|c| !c.is_empty()).count() };
-        // which directories does the glob prune?  (errors beneath them are never reached)
-        let programs: Vec<regex::Regex> = match &glob {
-            Some((g, _, _)) => g.verif_walk_component_patterns().iter().filter_map(|p| regex::Regex::new(p).ok()).collect(),
-            None => Vec::new(),
+        // which faults must the walk reach?  Not decided by mirroring the walker's pruning: a fault
+        // is *required* when something at or beneath its path can still match the glob (prefix
+        // viability of the glob's own program), and *allowed* whenever the reference traversal
+        // meets it within the depth bound.  Anything in between is the walker's free choice.
+        let via: Option<crate::viable::Viability> = match &glob {
+            Some((g, _, _)) => crate::viable::Viability::new(&g.verif_program_pattern()),
+            None => None,
         };
         let cand_of = |rel: &str| -> String {
             if rooted {
@@ -322,35 +325,12 @@ impl Property for C15 {
                 format!("{}/{}", prefix, rel)
             }
         };
-        let pruned = |rel: &str| -> bool {
-            // some proper ancestor (below the start) has a component its component program rejects
-            let below: Vec<&str> = rel.split('/').filter(|c| !c.is_empty()).collect();
-            for k in 1..below.len() {
-                // a directory above the minimum depth is never yielded, so it cannot be pruned
-                if min.map_or(false, |m| k + pivot < m) {
-                    continue;
-                }
-                let anc = below[..k].join("/");
-                let cand = cand_of(&anc);
-                let comps: Vec<&str> = cand.split('/').filter(|c| !c.is_empty()).collect();
-                if let Some(last) = comps.len().checked_sub(1) {
-                    // the walker compares the components from index (depth below the start - 1)
-                    // on, i.e. it re-checks as many components as the prefix has
-                    let pn = prefix.split('/').filter(|c| !c.is_empty()).count();
-                    for i in last.saturating_sub(pn)..=last {
-                        if i < programs.len() && !programs[i].is_match(comps[i]) {
-                            return true;
-                        }
-                    }
-                }
-            }
-            false
-        };
         // reference
         let reference = ref_walk(&start_abs, case.follow);
         let mut optional_root: Option<String> = None;
         let mut exp_ok: BTreeMap<String, usize> = BTreeMap::new();
-        let mut exp_err: BTreeMap<String, usize> = BTreeMap::new();
+        let mut req_err: BTreeMap<String, usize> = BTreeMap::new();
+        let mut allowed_err: BTreeMap<String, usize> = BTreeMap::new();
         let mut cut_min = false;
         let mut cut_max = false;
         let mut has_dir_link = false;
@@ -383,12 +363,27 @@ impl Property for C15 {
                 RefItem::Error { rel, what } => {
                     // an error beyond the maximum depth is never reached
                     let d = rel.split('/').filter(|c| !c.is_empty()).count() + pivot;
-                    let reached = match *what {
-                        // reading a directory at depth d happens only if its children (d+1) may be visited
-                        "unreadable directory" => max.map_or(true, |m| d < m),
-                        _ => max.map_or(true, |m| d <= m),
-                    };
-                    if !reached || pruned(rel) {
+                    let own = *what == "unreadable directory";
+                    // reading a directory at depth d is needed only if its children (d+1) may be
+                    // visited; reading it at the maximum depth anyway is tolerated
+                    let allowed = max.map_or(true, |m| d <= m);
+                    let within = if own { max.map_or(true, |m| d < m) } else { allowed };
+                    if !allowed {
+                        continue;
+                    }
+                    let path = if rel.is_empty() { norm(&start_given) } else { norm(&start_given.join(rel)) };
+                    *allowed_err.entry(path.clone()).or_insert(0) += 1;
+                    let must = within
+                        && match (&glob, &via) {
+                            (None, _) => true,
+                            (Some(_), Some(v)) => {
+                                let cand = cand_of(rel);
+                                v.beneath_viable(&cand) == Some(true) || (!own && v.matches(&cand) == Some(true))
+                            },
+                            (Some(_), None) => false,
+                        };
+                    if !must {
+                        st.count("fault_optional");
                         continue;
                     }
                     match *what {
@@ -396,8 +391,7 @@ impl Property for C15 {
                         "dangling link" => st.count("dangling_link_under_read_target"),
                         _ => {},
                     }
-                    let path = if rel.is_empty() { norm(&start_given) } else { norm(&start_given.join(rel)) };
-                    *exp_err.entry(path).or_insert(0) += 1;
+                    *req_err.entry(path).or_insert(0) += 1;
                 },
             }
         }
@@ -467,8 +461,16 @@ impl Property for C15 {
             let extra: Vec<&String> = act_ok.keys().filter(|k| act_ok.get(*k) != exp_ok.get(*k) && !missing.contains(k)).collect();
             return Err(format!("{}: entries differ from the depth-filtered reference traversal — missing or miscounted {:?}, unexpected {:?}", what, missing, extra));
         }
-        if act_err != exp_err {
-            return Err(format!("{}: error items (by path) {:?}, the reference expects {:?}", what, act_err, exp_err));
+        // exactly one error per required fault; no error that is not a fault of the reference
+        for (p, n) in &req_err {
+            if act_err.get(p) != Some(n) {
+                return Err(format!("{}: error items (by path) {:?}; the fault at {:?} must be reported exactly once (required {:?}, possible {:?})", what, act_err, p, req_err, allowed_err));
+            }
+        }
+        for (p, n) in &act_err {
+            if allowed_err.get(p).map_or(true, |m| n > m) {
+                return Err(format!("{}: error items (by path) {:?}; {:?} is not a fault the reference traversal meets within the bounds (possible {:?})", what, act_err, p, allowed_err));
+            }
         }
         if has_dir_link || cut_min || cut_max {
             let key = format!("{:?}|{}", case.tree, what);
